@@ -96,7 +96,8 @@ func (st *State) callFn(fn *ssa.Function, args []Value, env []Value, deferOf *fr
 			}
 		}
 	}
-	if h, ok := st.E.Hooks[name]; ok {
+	// a property's explicit redirect overrides a generic library summary
+	if h, ok := st.E.Hooks[name]; ok && st.E.Redirect[name] == nil {
 		st.E.noteUsed("hook", name)
 		return h(st, args)
 	}
